@@ -44,12 +44,15 @@ pub struct Scenario {
     pub origin: i64,
     /// further polls at the same instant after every scheduled poll
     pub repoll: u8,
+    /// endurance run: the observation window after convergence is this many times the usual one (tens of
+    /// thousands of token rotations: counters that wrap, state that accumulates)
+    pub endurance: u32,
 }
 
 impl Scenario {
     pub fn to_json(&self) -> Value {
         json!({"addrs": self.addrs, "hsa": self.hsa, "gap": self.gap, "baud": self.baud, "slot_bits": self.slot_bits, "ttr": self.ttr, "divs": self.divs, "phases": self.phases, "deaf": self.deaf,
-            "loads": self.loads.iter().map(|l| format!("{:?}", l)).collect::<Vec<_>>(), "late": self.late, "responders": self.responders, "origin": self.origin, "repoll": self.repoll})
+            "loads": self.loads.iter().map(|l| format!("{:?}", l)).collect::<Vec<_>>(), "late": self.late, "responders": self.responders, "origin": self.origin, "repoll": self.repoll, "endurance": self.endurance})
     }
     pub fn from_json(v: &Value) -> Scenario {
         let u8s = |x: &Value| -> Vec<u8> { x.as_array().unwrap().iter().map(|y| y.as_u64().unwrap() as u8).collect() };
@@ -68,6 +71,7 @@ impl Scenario {
             responders: v["responders"].as_array().unwrap().iter().map(|x| (x[0].as_u64().unwrap() as u8, x[1].as_u64().unwrap() as u32)).collect(),
             origin: v["origin"].as_i64().unwrap_or(0),
             repoll: v["repoll"].as_u64().unwrap_or(0) as u8,
+            endurance: v["endurance"].as_u64().unwrap_or(1) as u32,
         }
     }
     pub fn build(&self) -> W3Cfg {
@@ -93,7 +97,7 @@ impl Scenario {
             stalls: vec![],
             faults: vec![],
             responders: self.responders.clone(),
-            horizon_us: converge_by + stab,
+            horizon_us: converge_by + stab * self.endurance.max(1) as i64,
             converge_by_us: converge_by,
             deaf_phy: self.deaf,
             origin_us: self.origin,
@@ -184,7 +188,7 @@ pub fn scenario_set(tier: Tier, with_loads: bool) -> Vec<Scenario> {
                                         // target rotation time: builder default (HSA*5000 bit) and the builder minimum
                                         let ttrs: Vec<Option<u32>> = if late.is_empty() && gap == 1 && (baud == 1 || tier == Tier::Thorough) { vec![None, Some(256)] } else { vec![None] };
                                         for ttr in ttrs {
-                                            v.push(Scenario { addrs: addrs.clone(), hsa, gap, baud, slot_bits, ttr, divs: divs.clone(), phases: phases.clone(), deaf: false, loads: load.clone(), late: late.clone(), responders: vec![(40, 0)], origin: 0, repoll: 0 });
+                                            v.push(Scenario { addrs: addrs.clone(), hsa, gap, baud, slot_bits, ttr, divs: divs.clone(), phases: phases.clone(), deaf: false, loads: load.clone(), late: late.clone(), responders: vec![(40, 0)], origin: 0, repoll: 0, endurance: 1 });
                                         }
                                     }
                                 }
@@ -208,7 +212,7 @@ pub fn scenario_set(tier: Tier, with_loads: bool) -> Vec<Scenario> {
                 for slot_bits in tier.pick(vec![min_slot], vec![min_slot, min_slot.max(300) + 11]) {
                     let loads: Vec<Vec<Load>> = if with_loads { vec![vec![Load::None], vec![Load::SrdAlways(40)]] } else { vec![vec![Load::None]] };
                     for load in loads {
-                        v.push(Scenario { addrs: addrs.clone(), hsa: 6, gap: 1, baud, slot_bits, ttr: None, divs: divs.clone(), phases: vec![0, 1, 2], deaf: false, loads: load, late: vec![], responders: vec![(40, 0)], origin: 0, repoll: 0 });
+                        v.push(Scenario { addrs: addrs.clone(), hsa: 6, gap: 1, baud, slot_bits, ttr: None, divs: divs.clone(), phases: vec![0, 1, 2], deaf: false, loads: load, late: vec![], responders: vec![(40, 0)], origin: 0, repoll: 0, endurance: 1 });
                     }
                 }
             }
@@ -226,7 +230,7 @@ pub fn scenario_set(tier: Tier, with_loads: bool) -> Vec<Scenario> {
                 for phases in tier.pick(vec![vec![0, 1, 2]], vec![vec![0, 1, 2], vec![0]]) {
                     let loads: Vec<Vec<Load>> = if with_loads { vec![vec![Load::None], vec![Load::SrdAlways(40), Load::None]] } else { vec![vec![Load::None]] };
                     for load in loads {
-                        v.push(Scenario { addrs: addrs.clone(), hsa, gap: 1, baud: 1, slot_bits: 100, ttr: None, divs: divs.clone(), phases: phases.clone(), deaf: false, loads: load, late: vec![], responders: vec![(40, 0)], origin: 0, repoll: 0 });
+                        v.push(Scenario { addrs: addrs.clone(), hsa, gap: 1, baud: 1, slot_bits: 100, ttr: None, divs: divs.clone(), phases: phases.clone(), deaf: false, loads: load, late: vec![], responders: vec![(40, 0)], origin: 0, repoll: 0, endurance: 1 });
                     }
                 }
             }
@@ -246,6 +250,11 @@ pub fn scenario_set(tier: Tier, with_loads: bool) -> Vec<Scenario> {
             r.repoll = 2;
             v.push(r);
         }
+    }
+    // endurance: a lone station and a two-station ring observed for some 10^5 token rotations (u8 and u16
+    // counters wrap, anything that accumulates shows)
+    for addrs in [vec![2u8], vec![1, 4]] {
+        v.push(Scenario { addrs, hsa: 6, gap: 1, baud: 1, slot_bits: 100, ttr: None, divs: vec![16], phases: vec![0, 1, 2], deaf: false, loads: vec![Load::None], late: vec![], responders: vec![(40, 0)], origin: 0, repoll: 0, endurance: tier.pick(8_000, 20_000) });
     }
     let mut seen = std::collections::HashSet::new();
     v.retain(|sc| seen.insert(sc.to_json().to_string()));
@@ -925,7 +934,7 @@ pub fn run_c13(tier: Tier) -> ! {
                             if phases.len() == 1 && (addrs.len() == 1 || (tier == Tier::Quick && ttr != Some(256))) {
                                 continue;
                             }
-                            let mut sc = Scenario { addrs: addrs.clone(), hsa: 6, gap: 1, baud: 1, slot_bits, ttr, divs: divs.clone(), phases, deaf: false, loads: load.clone(), late: vec![], responders: vec![(40, 11), (41, slot_bits as u32 - 33), (42, 0)], origin: 0, repoll: 0 };
+                            let mut sc = Scenario { addrs: addrs.clone(), hsa: 6, gap: 1, baud: 1, slot_bits, ttr, divs: divs.clone(), phases, deaf: false, loads: load.clone(), late: vec![], responders: vec![(40, 11), (41, slot_bits as u32 - 33), (42, 0)], origin: 0, repoll: 0, endurance: 1 };
                             if !sc.inside_envelope() {
                                 continue;
                             }
@@ -951,6 +960,10 @@ pub fn run_c13(tier: Tier) -> ! {
             scenarios.push(r);
         }
     }
+    // endurance (some 10^5 token visits with busy applications)
+    for (addrs, ttr, load) in [(vec![2u8], Some(256u32), vec![Load::SdnAlways]), (vec![1, 2], Some(2000), vec![Load::SrdAlways(40), Load::SdnAlways])] {
+        scenarios.push(Scenario { addrs, hsa: 6, gap: 1, baud: 1, slot_bits: 100, ttr, divs: vec![16], phases: vec![0, 1, 2], deaf: false, loads: load, late: vec![], responders: vec![(40, 11), (41, 67), (42, 0)], origin: 0, repoll: 0, endurance: tier.pick(6_000, 20_000) });
+    }
     let tally = Tally::new();
     scenarios.par_iter().for_each(|sc| {
         let mut cfg = sc.build();
@@ -959,13 +972,13 @@ pub fn run_c13(tier: Tier) -> ! {
         let ttr_us = (sc.ttr.unwrap_or(sc.hsa as u32 * 5000) as f64 * bit_us) as i64;
         let n = sc.addrs.len() as i64;
         cfg.converge_by_us += (sc.hsa as i64 + 8) * n * ttr_us;
-        cfg.horizon_us = cfg.converge_by_us + 8 * (ttr_us + n * (3 * cfg.slot_us()));
+        cfg.horizon_us = cfg.converge_by_us + 8 * (ttr_us + n * (3 * cfg.slot_us())) * sc.endurance.max(1) as i64;
         let cfg = Arc::new(cfg);
         // quick: one poll stall at every effective poll on the explicit-TTR configurations of up to three stations
         // configurations with the fine poll grid; thorough: on every configuration
-        let quick_k1 = sc.addrs.len() <= 3 && sc.ttr != None && sc.divs == vec![16] && sc.origin == 0 && sc.repoll == 0;
+        let quick_k1 = sc.addrs.len() <= 3 && sc.ttr != None && sc.divs == vec![16] && sc.origin == 0 && sc.repoll == 0 && sc.endurance <= 1;
         // (thorough: every explicit-TTR configuration except the Tslot/8-only grid)
-        let thorough_k1 = tier == Tier::Thorough && sc.divs != vec![8] && sc.ttr.is_some();
+        let thorough_k1 = tier == Tier::Thorough && sc.divs != vec![8] && sc.ttr.is_some() && sc.endurance <= 1;
         // thorough: every placement of TWO poll stalls on the lone stations and the two-station rings with the
         // builder-minimum TTR on the fine poll grid (slot time 100)
         let thorough_k2 = tier == Tier::Thorough && sc.addrs.len() <= 2 && sc.ttr == Some(256) && sc.divs == vec![16] && sc.slot_bits == 100 && sc.phases.len() == 3 && sc.origin == 0 && sc.repoll == 0 && !matches!(sc.loads[0], Load::SdnLowOnly);
@@ -1146,7 +1159,7 @@ pub fn run_c06(tier: Tier) -> ! {
                     if tier == Tier::Quick && deaf && load != Load::None && addrs.len() > 3 {
                         continue;
                     }
-                    scenarios.push(Scenario { addrs: addrs.clone(), hsa: *hsa, gap: *gap, baud: 1, slot_bits: 300, ttr: if load == Load::None { None } else { Some(1500) }, divs: divs.clone(), phases: phases.clone(), deaf, loads: vec![load], late: vec![], responders: vec![], origin: 0, repoll: 0 });
+                    scenarios.push(Scenario { addrs: addrs.clone(), hsa: *hsa, gap: *gap, baud: 1, slot_bits: 300, ttr: if load == Load::None { None } else { Some(1500) }, divs: divs.clone(), phases: phases.clone(), deaf, loads: vec![load], late: vec![], responders: vec![], origin: 0, repoll: 0, endurance: 1 });
                 }
             }
         }
@@ -1156,7 +1169,7 @@ pub fn run_c06(tier: Tier) -> ! {
         for deaf in [false, true] {
             for phases in [vec![0i64, 0, 0], vec![0, 1, 2]] {
                 for gap in [1u8, 2] {
-                    scenarios.push(Scenario { addrs: vec![0, 3, 7], hsa: 10, gap, baud: 1, slot_bits: 100, ttr: None, divs: vec![52], phases: phases.clone(), deaf, loads: vec![Load::None], late: vec![], responders: vec![], origin: 0, repoll: 0 });
+                    scenarios.push(Scenario { addrs: vec![0, 3, 7], hsa: 10, gap, baud: 1, slot_bits: 100, ttr: None, divs: vec![52], phases: phases.clone(), deaf, loads: vec![Load::None], late: vec![], responders: vec![], origin: 0, repoll: 0, endurance: 1 });
                 }
             }
         }
@@ -1165,7 +1178,7 @@ pub fn run_c06(tier: Tier) -> ! {
         // (development aid) only the scenarios of an experiment: "addrs;hsa;slot;div"
         let f: Vec<&str> = x.split(';').collect();
         let addrs: Vec<u8> = f[0].split(',').map(|a| a.parse().unwrap()).collect();
-        scenarios = vec![Scenario { addrs, hsa: f[1].parse().unwrap(), gap: f.get(4).map(|g| g.parse().unwrap()).unwrap_or(1), baud: 1, slot_bits: f[2].parse().unwrap(), ttr: None, divs: vec![f[3].parse().unwrap()], phases: if f.get(6) == Some(&"s") { vec![0, 1, 2] } else { vec![0, 0, 0] }, deaf: f.get(5).map(|d| *d == "1").unwrap_or(false), loads: vec![Load::None], late: vec![], responders: vec![], origin: 0, repoll: 0 }];
+        scenarios = vec![Scenario { addrs, hsa: f[1].parse().unwrap(), gap: f.get(4).map(|g| g.parse().unwrap()).unwrap_or(1), baud: 1, slot_bits: f[2].parse().unwrap(), ttr: None, divs: vec![f[3].parse().unwrap()], phases: if f.get(6) == Some(&"s") { vec![0, 1, 2] } else { vec![0, 0, 0] }, deaf: f.get(5).map(|d| *d == "1").unwrap_or(false), loads: vec![Load::None], late: vec![], responders: vec![], origin: 0, repoll: 0, endurance: 1 }];
     }
     let tally = Tally::new();
     scenarios.par_iter().for_each(|sc| {
@@ -1363,7 +1376,7 @@ pub fn run_c06(tier: Tier) -> ! {
     let races: Vec<(Vec<u8>, u8)> = vec![(vec![1, 2], 6), (vec![0, 3], 6), (vec![2, 4, 5], 6)];
     races.par_iter().for_each(|(addrs, hsa)| {
         for off_q in tier.pick(vec![0i64, 2], vec![-2, -1, 0, 1, 2, 3]) {
-            let sc = Scenario { addrs: addrs.clone(), hsa: *hsa, gap: 1, baud: 1, slot_bits: 300, ttr: None, divs: vec![16], phases: vec![0, 1, 2], deaf: false, loads: vec![Load::None], late: vec![], responders: vec![], origin: 0, repoll: 0 };
+            let sc = Scenario { addrs: addrs.clone(), hsa: *hsa, gap: 1, baud: 1, slot_bits: 300, ttr: None, divs: vec![16], phases: vec![0, 1, 2], deaf: false, loads: vec![Load::None], late: vec![], responders: vec![], origin: 0, repoll: 0, endurance: 1 };
             let mut cfg = sc.build();
             let slot_us = cfg.slot_us();
             // station 0 (lowest address) joins later by exactly the difference of the time-outs
@@ -1414,7 +1427,7 @@ pub fn c11_forged_offers(tier: Tier) -> (u64, u64) {
     let polls = AtomicU64::new(0);
     sets.par_iter().for_each(|(addrs, hsa)| {
         for divs in tier.pick(vec![vec![16i64]], vec![vec![16], vec![4], vec![16, 4]]) {
-            let sc = Scenario { addrs: addrs.clone(), hsa: *hsa, gap: 1, baud: 1, slot_bits: 300, ttr: None, divs: divs.clone(), phases: vec![0, 1, 2], deaf: false, loads: vec![Load::None], late: vec![], responders: vec![], origin: 0, repoll: 0 };
+            let sc = Scenario { addrs: addrs.clone(), hsa: *hsa, gap: 1, baud: 1, slot_bits: 300, ttr: None, divs: divs.clone(), phases: vec![0, 1, 2], deaf: false, loads: vec![Load::None], late: vec![], responders: vec![], origin: 0, repoll: 0, endurance: 1 };
             let cfg = Arc::new(sc.build());
             let mut base = W3Run::new(&cfg);
             while base.now < cfg.converge_by_us && base.panic.is_none() {
